@@ -28,6 +28,7 @@ open Cascette.Props.C04
 #print axioms offset_past_1GiB_wraps_after_reopen
 #print axioms idx_offset_wrap_witness
 #print axioms tabulated_steps_are_the_model
+#print axioms chunked_steps_are_the_model
 #print axioms update_section_overflow_entry_survives_reopen_witness
 -- translator tie: constants / predicates extracted from the current Rust source (lib/rs2lean_archive.py) = what the model computes with
 #print axioms Cascette.Proofs.ArchiveTie.header_size_tie
